@@ -328,6 +328,16 @@ func walk(r *simkit.Run, prop string) {
 		legacy := &Sch{}
 		for i, n := 0, t.Range("legacy-tables", 1, 2); i < n; i++ {
 			tb := g.NewTable(legacy)
+			// Names people give: a table of checks, a table of constraints.
+			if t.Chance("legacy-table-name-ends-in-a-keyword", 1, 5) {
+				old := tb.Name
+				tb.Name += []string{"_check", "_constraint", "_references"}[t.Draw("legacy-name-suffix", 3)]
+				for _, f := range tb.FKs {
+					if f.RefTable == old {
+						f.RefTable = tb.Name
+					}
+				}
+			}
 			for _, ix := range tb.Idx {
 				plain := ix.Unique && ix.Where == ""
 				var cols []string
@@ -358,6 +368,9 @@ func walk(r *simkit.Run, prop string) {
 			}
 			if t.Chance("bare-expression-index-parts", 1, 2) {
 				tb.BareExpr = true
+			}
+			if t.Chance("unquoted-identifiers", 1, 3) {
+				tb.BareNames = true
 			}
 			for _, f := range tb.FKs {
 				p := legacy.Table(f.RefTable)
@@ -394,6 +407,13 @@ func walk(r *simkit.Run, prop string) {
 							r.Probe("legacy-fk-without-column-list")
 							f.ImplicitCols = false
 						}
+					}
+					if tb.BareNames {
+						r.Probe("legacy-unquoted-identifiers")
+						tb.BareNames = false
+					}
+					if strings.Contains(tb.Name, "_c") || strings.Contains(tb.Name, "_r") {
+						r.Probe("legacy-table-name-ends-in-a-keyword")
 					}
 					if tb.BareExpr {
 						for _, ix := range tb.Idx {
